@@ -1783,6 +1783,12 @@ GRIupdateRIG(int32 hdf_file_id, ri_info_t *img_ptr)
     /* write out RIG */
     if (img_ptr->rig_ref == DFTAG_WILDCARD)
         img_ptr->rig_ref = Htagnewref(hdf_file_id, DFTAG_RIG);
+    else if (Hexist(hdf_file_id, DFTAG_RIG, img_ptr->rig_ref) == SUCCEED) {
+        /* The group may have grown (a palette was attached to an image already in the file) and an
+           element in the middle of the file cannot be extended: replace the old RIG instead */
+        if (Hdeldd(hdf_file_id, DFTAG_RIG, img_ptr->rig_ref) == FAIL)
+            HGOTO_ERROR(DFE_CANTDELDD, FAIL);
+    }
     if (DFdiwrite(hdf_file_id, GroupID, DFTAG_RIG, img_ptr->rig_ref) == FAIL)
         HGOTO_ERROR(DFE_GROUPWRITE, FAIL);
 
